@@ -280,6 +280,40 @@ def r53(ctx):
                              f"{eb.name}/unburied", "a commitment beyond the initial one is accepted while funding is not buried")
     R.named_scenario_refused(ctx, "R5.3", eb, ["commit_num > 0", "ChainState.closing_depth > 0"],
                              f"{eb.name}/closed-onchain", "a commitment beyond the initial one is accepted after a close was seen on chain")
+    # the depths the guard reads are 1 for an event in the tip block: ChainMonitorBase::as_chain_state computes every depth
+    # as height + 1 - event_height (0 only when the event was not seen), and closing_depth covers both kinds of close
+    ab = p.fn(LS + "monitor::ChainMonitorBase::as_chain_state")
+    av = fnview(ctx, ab, policy=False)
+    nlit = 0
+    for bb, bi, si, st in R.constructions(p, LS + "policy::validator::ChainState"):
+        if bb is not ab:
+            continue
+        nlit += 1
+        vals = dict(zip(st.rv.a[3], st.rv.ops))
+        for fld, srcs in (("funding_depth", ["funding_height"]), ("funding_double_spent_depth", ["funding_double_spent_height"]),
+                          ("closing_depth", ["mutual_closing_height", "unilateral_closing_height"])):
+            e = av.expr(vals[fld])
+            got = sorted({x[3] for x in subexprs(e) if x[0] == "field" and x[2].endswith("monitor::State") and x[3].endswith("_height")})
+            ctx.ob("R5.3", got == sorted(srcs), f"{ab.name}/{fld}/source", f"{fld} is derived from {got} (expected {srcs})",
+                   where=f"{ab.file}:{st.line}", sample=f"{fld} <- {srcs}")
+            forms = set()
+            for x in subexprs(e):
+                if x[0] == "closure":
+                    cd = [d for d in p.by_name.get(x[1], []) if d.id in p.bodies]
+                    for d in cd:
+                        cvw = fnview(ctx, p.bodies[d.id], policy=False)
+                        env = R.closure_env(ctx, ab, d)
+                        for r in cvw.return_sites():
+                            if "stmt" in r and r["stmt"].rv.ops:
+                                forms.add(render(R.subst_captures(cvw.expr(r["stmt"].rv.ops[0]), env)))
+                            elif "call" in r:
+                                forms.add(render(R.subst_captures(cvw._call_expr(r["call"], 0), env)))
+            ok = len(forms) == 1 and all(f.endswith(".height + 1) - h)") or f.endswith("height + 1) - h)") for f in forms)
+            ctx.ob("R5.3", ok, f"{ab.name}/{fld}/formula",
+                   f"{fld} is computed as {sorted(forms)} (expected height + 1 - event height): an event in the tip block would have "
+                   f"depth 0 and the on-chain guard (`closing_depth > 0`, `funding_depth < min`) misses it for one block",
+                   where=f"{ab.file}:{st.line}", sample="height + 1 - h")
+    ctx.floor("R5.3", "ChainState literal in as_chain_state", nlit, 1)
     guard = lambda n: n == f"{OVT}::ensure_funding_buried_and_unspent"
     cb = p.fn(f"{OV}::validate_counterparty_commitment_tx")
     cv = fnview(ctx, cb)
